@@ -151,3 +151,62 @@ def facts_of_path(facts, integer=True):
 def find_model_hint(cons):
     """very small witness search used only to *describe* an emptiness finding"""
     return None
+
+
+def dnf_of_cond(c: Cond, val=True):
+    """disjunction (list) of conjunctions (lists of Lin >= 0) equivalent over the integers to `c is val`; None if not
+    expressible.  any(c)/all(c) are read at the generic element (witness / instance)."""
+    if not val:
+        c = c.neg()
+    t = c.t
+    if t[0] == "const":
+        return [[]] if t[1] else []
+    if t[0] in ("any", "all"):
+        return dnf_of_cond(t[1], True)
+    if t[0] == "not":
+        inner = t[1]
+        if inner.t[0] in ("opq",):
+            return None
+        return dnf_of_cond(inner, False)
+    if t[0] == "and":
+        a, b = dnf_of_cond(t[1]), dnf_of_cond(t[2])
+        if a is None or b is None:
+            return None
+        return [x + y for x in a for y in b]
+    if t[0] == "or":
+        a, b = dnf_of_cond(t[1]), dnf_of_cond(t[2])
+        if a is None or b is None:
+            return None
+        return a + b
+    if t[0] == "cmp":
+        l = Lin.of(t[2])
+        if l is None:
+            return None
+        op = t[1]
+        if op == "<=0":
+            return [[l.neg()]]
+        if op == "<0":
+            n_ = l.neg()
+            return [[Lin(n_.c0 - 1, n_.co)]]
+        if op == "==0":
+            return [[l, l.neg()]]
+        if op == "!=0":
+            n_ = l.neg()
+            return [[Lin(l.c0 - 1, l.co)], [Lin(n_.c0 - 1, n_.co)]]
+    return None
+
+
+def path_cases(facts, limit=256):
+    """the facts of a path as a disjunction of conjunctions of Lin constraints (dis-equalities and `or` are split);
+    facts outside the affine fragment are dropped (the result is then weaker than the path) and reported in the second value"""
+    cases = [[]]
+    unknown = []
+    for c, v in facts:
+        d = dnf_of_cond(c, v)
+        if d is None:
+            unknown.append(c)
+            continue
+        cases = [x + y for x in cases for y in d]
+        if len(cases) > limit:
+            break
+    return cases, unknown
